@@ -67,9 +67,10 @@ func c11IsHex(s string, n int) bool {
 }
 
 // c11Int classifies a JSON number token.
-//   "int"  : -?(0|[1-9][0-9]*) — value returned
-//   "open" : exponent form, "-0", or a fraction of zeros only (integral value in a form the statement does not decide)
-//   "frac" : a genuine fraction
+//
+//	"int"  : -?(0|[1-9][0-9]*) — value returned
+//	"open" : exponent form, "-0", or a fraction of zeros only (integral value in a form the statement does not decide)
+//	"frac" : a genuine fraction
 func c11Int(n json.Number) (*big.Int, string) {
 	s := string(n)
 	if strings.ContainsAny(s, "eE") {
